@@ -367,6 +367,16 @@ def job_count(job):
                     f = getattr(alg, opname)
                     todo = pats_u if not binary else list(zip(half, reversed(half)))
                     for rnd in (0, 1, 2):
+                        if rnd == 1:
+                            # things a session does between two uses of an algebra that must not cost its generated code: deriving
+                            # another algebra from it, re-assigning an option to the value it has
+                            import dataclasses as _dc
+                            try:
+                                _dc.replace(alg, pretty_blade='B')
+                                alg.cse = alg.cse
+                                alg.wrapper = alg.wrapper
+                            except Exception:
+                                pass
                         before = dict(counter)
                         for pat in (todo if rnd < 2 else list(reversed(todo))):
                             out['evaluations'] += 1
